@@ -18,6 +18,8 @@ LEVEL_NOTE = ("Coq kernel; extraction (ExtrOcamlBasic); the MAIL argument patter
 DESIGN_REF = "DESIGN.md §4 C01"
 RULE = ("dialogues drawn from a grammar: greeting, 1-4 transactions with valid/rejected/malformed/duplicate/+ext/mixed-case "
         "recipients, RSET/EHLO/garbage/AUTH interleaved, 3 naming modes x random accept/store/origin policies x mem/file store; "
+        "plus an assembled-system stream: each case a child process that builds the whole server with server.FullAssembly from the "
+        "environment, plays the dialogue over the real SMTP port and reads every addressed mailbox back through the REST API; "
         "distinct = distinct input line; non-trivial = something was stored or some command was refused with 5xx")
 TRUSTED = ["net.ParseIP verdicts and enmime header facts (From/To/Subject, parse error) are oracles supplied by the driver from the real functions",
            "loopback TCP with client half-close stands for a real client connection"]
